@@ -187,35 +187,4 @@ theorem length_le_renderArgs (args : List (Str × Str)) :
       have : renderArgs crTable (p :: q :: r) = renderArg crTable p ++ '\n' :: renderArgs crTable (q :: r) := rfl
       rw [this]; simp only [List.length_append, List.length_cons] at *; omega
 
-/-- the recogniser is a left inverse of the renderer: the envelope the client emits reads back
-    as exactly the action name, namespace and (name, text) pairs it was built from -/
-theorem readEnvelope_render (name st : Str) (args : List (Str × Str))
-    (hn : ' ' ∉ name) (hs : '"' ∉ st) (ha : ∀ p ∈ args, nameOk p.1 = true) :
-    readEnvelope (renderBody crTable name st args) = some { action := name, ns := st, args := args } := by
-  unfold readEnvelope renderBody
-  simp only [List.append_assoc, List.cons_append]
-  rw [stripPrefix_append]
-  simp only [Option.bind_eq_bind, Option.bind_some]
-  rw [splitAt1_append ' ' name _ hn]
-  simp only [Option.bind_some]
-  rw [stripPrefix_append]
-  simp only [Option.bind_some]
-  rw [splitAt1_append '"' st _ hs]
-  simp only [Option.bind_some]
-  have h1 : stripPrefix ['>'] ('>' :: (renderArgs crTable args ++ (suf1 ++ (name ++ suf2))))
-      = some (renderArgs crTable args ++ (suf1 ++ (name ++ suf2))) := by simp [stripPrefix]
-  rw [h1]
-  simp only [Option.bind_some]
-  have hclose : startsClose (suf1 ++ (name ++ suf2)) = true := by simp [suf1, startsClose]
-  have hfuel : args.length < (renderArgs crTable args ++ (suf1 ++ (name ++ suf2))).length + 1 := by
-    have := length_le_renderArgs args
-    simp only [List.length_append]; omega
-  rw [readArgs_render args _ _ hfuel ha hclose]
-  simp only [Option.bind_some]
-  have h2 : stripPrefix (suf1 ++ (name ++ suf2)) (suf1 ++ (name ++ suf2)) = some [] := by
-    have := stripPrefix_append (suf1 ++ (name ++ suf2)) []
-    simpa using this
-  rw [h2]
-  simp
-
 end Upnp.C06
